@@ -11,6 +11,7 @@
 #include "mpt_c.hpp"
 
 #include <cctype>
+#include <cerrno>
 #include <functional>
 
 using namespace vp;
@@ -449,6 +450,60 @@ static void op_append(Case &k, const Bytes &prefix) {
   c.label("op:append");
   if (k.nonempty >= 2) k.nt = true;
 }
+// ---- append to an array that cannot grow: a caller-supplied buffer of fixed capacity behind the public buffer
+//      interface (get_flags, unref, addref, detach); detach refuses anything beyond the capacity
+static uint32_t fx_flags(const CBuf *) { return 0; }
+static void fx_unref(CBuf *) {}
+static uintptr_t fx_addref(CBuf *) { return 1; }
+static CBuf *fx_detach(CBuf *b, size_t len) {
+  if (len > b->size) { errno = ENOMEM; return 0; }
+  return b;
+}
+static const CBufVptr kFixedVptr = {fx_flags, fx_unref, fx_addref, fx_detach};
+struct FixedBuf {
+  CBuf *b;
+  FixedBuf(size_t cap) {
+    b = (CBuf *)malloc(sizeof(CBuf) + cap);  // exact size: writing behind the capacity is an ASan report
+    b->vptr = &kFixedVptr; b->traits = 0; b->size = cap; b->used = 0;
+    memset(b->data(), 0xCC, cap);
+  }
+  ~FixedBuf() { free(b); }
+  Bytes content() const { return Bytes((const char *)b->data(), b->used); }
+};
+static void op_append_bounded(Case &k, const Bytes &prefix, size_t cap) {
+  Ctx &c = k.c;
+  FixedBuf bf(cap), bo(cap);
+  CObj<array> af, ao;
+  cbuf(af) = bf.b;
+  cbuf(ao) = bo.b;
+  if (!prefix.empty()) {
+    CK(c, mpt_array_append(af, prefix.size(), prefix.data()) && mpt_array_append(ao, prefix.size(), prefix.data()), "harness", "prefix of %zu bytes does not fit capacity %zu", prefix.size(), cap);
+  }
+  int ro = mpt_message_append(ao, &k.omsg);
+  int rf = mpt_message_append(af, &k.fmsg);
+  CK(c, cbuf(af) == bf.b && cbuf(ao) == bo.b, "append-buffer-replaced", "mpt_message_append replaced the fixed buffer of the array");
+  Bytes gf = bf.content(), go = bo.content();
+  cbuf(af) = 0;
+  cbuf(ao) = 0;
+  bool fits = prefix.size() + k.text.size() <= cap;
+  c.logf("append to fixed capacity %zu behind %zu bytes (%s): fragmented %d (%zu bytes), contiguous %d (%zu bytes)", cap, prefix.size(), fits ? "fits" : "does not fit", rf, gf.size(), ro, go.size());
+  CK(c, rf == ro, "append-differs", "mpt_message_append into capacity %zu: %d for the fragments, %d for the contiguous string", cap, rf, ro);
+  CK(c, gf == go, "append-differs", "mpt_message_append into capacity %zu (returned %d): array holds %zu bytes %s after the fragments, %zu bytes %s after the contiguous string", cap, rf, gf.size(),
+     show(gf).c_str(), go.size(), show(go).c_str());
+  if (fits) {
+    CK(c, ro >= 0, "append-refused", "mpt_message_append of %zu bytes behind %zu into capacity %zu returned %d", k.text.size(), prefix.size(), cap, ro);
+    CK(c, go == prefix + k.text, "append-reference", "mpt_message_append: array holds %zu bytes %s, expected %zu", go.size(), show(go).c_str(), prefix.size() + k.text.size());
+    c.label("append-bounded:fits");
+  } else {
+    // the array cannot hold the message: the call must fail and "reset array state" (source comment), i.e. leave the content as it was
+    CK(c, ro < 0, "append-overfull", "mpt_message_append of %zu bytes behind %zu into capacity %zu returned %d", k.text.size(), prefix.size(), cap, ro);
+    CK(c, go == prefix, "append-failed-changed", "failed mpt_message_append left %zu bytes %s in the array, it held %zu before", go.size(), show(go).c_str(), prefix.size());
+    CK(c, gf == prefix, "append-failed-changed", "failed mpt_message_append of the fragments left %zu bytes %s in the array, it held %zu before", gf.size(), show(gf).c_str(), prefix.size());
+    c.label("append-bounded:refused");
+    if (k.nonempty >= 2 && cap - prefix.size() >= k.first_len) { c.label("append-bounded:fails-behind-first-fragment"); k.nt = true; }
+  }
+  c.label("op:append-bounded");
+}
 static void op_array_message(Case &k, int sep) {
   Ctx &c = k.c;
   CObj<array> af, ao;
@@ -537,7 +592,7 @@ static Bytes draw_tokset(Ctx &c, const char *typical) {
   return s;
 }
 
-enum { OpRead, OpLength, OpMemchr, OpMemstr, OpMemfcn, OpMemtok, OpMemcpy, OpAppend, OpArgv, OpArrayMessage, NOp };
+enum { OpRead, OpLength, OpMemchr, OpMemstr, OpMemfcn, OpMemtok, OpMemcpy, OpAppend, OpArgv, OpArrayMessage, OpAppendBounded, NOp };
 
 static void one_op(Case &k, int op) {
   Ctx &c = k.c;
@@ -586,6 +641,24 @@ static void one_op(Case &k, int op) {
     case OpAppend: op_append(k, c.flip() ? Bytes() : Bytes(c.range(1, 40), 'p')); break;
     case OpArgv: op_argv(k, draw_sep(c, k.text)); break;
     case OpArrayMessage: op_array_message(k, draw_sep(c, k.text)); break;
+    case OpAppendBounded: {
+      size_t p = c.weighted({1, 2}) ? c.range(1, 8) : 0, n = k.text.size(), room;
+      switch (c.weighted({4, 3, 1, 1})) {
+        case 0: {  // up to a fragment border -1/0/+1: the append fails at that fragment
+          size_t acc = 0, d = c.range(0, 2);
+          std::vector<size_t> b;
+          for (size_t x : k.lens) { acc += x; b.push_back(acc); }
+          room = b[c.pick(b.size())];
+          room = room + d >= 1 ? room + d - 1 : 0;
+          break;
+        }
+        case 1: room = c.range(0, n); break;
+        case 2: room = n; break;
+        default: room = n + c.range(1, 8); break;
+      }
+      op_append_bounded(k, Bytes(p, 'p'), p + room);
+      break;
+    }
   }
 }
 
@@ -609,7 +682,7 @@ static void run(Ctx &c) {
   CK(c, flatten(k.fmsg) == k.text && flatten(k.omsg) == k.text, "harness", "fragment construction broken");
   unsigned ops = 0;
   do {
-    one_op(k, (int)c.weighted({4, 1, 2, 2, 2, 4, 3, 2, 5, 3}));
+    one_op(k, (int)c.weighted({4, 1, 2, 2, 2, 4, 3, 2, 5, 3, 3}));  // new operations are added at the end: existing case bytes keep their meaning
   } while (++ops < 8 && c.more());
   if (k.nt) c.nontrivial();
 }
@@ -666,6 +739,8 @@ static void run_enum(Ctx &c) {
   for (int sep : {(int)' ', (int)'a', 0, (int)'\n'}) { op_argv(k, sep); op_array_message(k, sep); }
   op_append(k, Bytes());
   op_append(k, "pp");
+  // fixed-capacity arrays: every capacity from "nothing fits" to "just fits", with and without content before
+  for (size_t room = 0; room <= n; room++) { op_append_bounded(k, Bytes(), room); op_append_bounded(k, "pp", 2 + room); }
   op_memcpy(k, -1, {n / 2, n - n / 2});
   op_memcpy(k, (ssize_t)n, {0, 1, n});
   // reads: every split of the text into two reads, then one byte at a time
@@ -683,7 +758,7 @@ static Target t = {
     "C17",
     "random: text <= 300 bytes (words/white space/quotes/separators/comments/NULs | 1-4 symbol alphabet | arbitrary) x composition into <= 6 fragments with empty fragments, each fragment an "
     "exact-size heap block, or the parts mpt_message_get() yields for a range of a (wrapped) queue; 1-8 operations out of read schedules (lengths at fragment borders +-1), length, "
-    "memchr/memrchr, memstr/memrstr, memfcn/memrfcn, memtok(tok,com,esc), memcpy into a <= 4 fragment target, mpt_message_append, the argv/read/skip loop, mpt_array_message; every result compared "
+    "memchr/memrchr, memstr/memrstr, memfcn/memrfcn, memtok(tok,com,esc), memcpy into a <= 4 fragment target, mpt_message_append (growing array | array on a fixed-capacity buffer that refuses to grow, capacity at fragment borders +-1), the argv/read/skip loop, mpt_array_message; every result compared "
     "with the same call on the contiguous copy and with a flat reference where one exists. exhaustive: all strings of length <= 5 (thorough: 6) over {a, space, quote, newline} x all compositions "
     "into <= 3 fragments x a fixed battery of all operations. non-trivial: >= 2 non-empty fragments and the answer position / consumed extent lies behind the first non-empty fragment "
     "(enumerated cases all count); distinct by hash of the draw sequence.",
